@@ -61,7 +61,7 @@ Section Step.
     fin_take s r = Ok s' ret -> Inv s'.
   Proof.
     intros s r s' ret I H1 H. destruct r as [[s1 x]| |]; cbn in H; inversion H; subst; auto.
-    apply add_handle_inv. eauto.
+    apply gc_inv. apply add_handle_inv. eauto.
   Qed.
 
   Lemma add_plain_inv : forall s K k c s' ret, Inv s -> K <> CComps ->
@@ -70,7 +70,7 @@ Section Step.
   Proof.
     intros s K k c s' ret I HK Hr Ha Hni H. cbn in H. inversion H; subst.
     destruct (recv_facts _ _ _ Hr) as [_ [Hk Hl]]. destruct (arg_facts _ _ _ Ha) as [_ [Hc Hkc]].
-    apply attach_inv; auto.
+    apply gc_inv. apply attach_inv; auto.
     - eapply lister_not_leaf; eauto.
     - eapply no_anc_leaf; eauto.
   Qed.
@@ -83,13 +83,13 @@ Section Step.
     destruct (recv_facts _ _ _ Hr) as [_ [Hk Hl]]. destruct (arg_facts _ _ _ Ha) as [_ [Hc Hkc]].
     destruct (kind_is s k KModel) eqn:EM.
     - inversion H; subst. apply kind_is_kindd in EM. destruct EM as [_ EM].
-      apply attach_inv; auto.
+      apply gc_inv. apply attach_inv; auto.
       + intros ->. congruence.
       + apply no_anc_model; assumption.
     - destruct (Nat.eqb_spec k c) as [->|Hne]; [inversion H; subst; assumption|].
       destruct (has_ancestor s (fuel_of s) k c) as [[|]|] eqn:EA; try discriminate.
       + inversion H; subst; assumption.
-      + inversion H; subst. apply attach_inv; auto. eapply has_ancestor_false; eauto.
+      + inversion H; subst. apply gc_inv. apply attach_inv; auto. eapply has_ancestor_false; eauto.
   Qed.
 
   Lemma set_link_inv : forall s x f, Inv s ->
@@ -188,17 +188,17 @@ Section Step.
       destruct a as [x|]; [|ill H]. destruct b as [y|]; [|ill H].
       destruct (add_equivalence s x y) as [s1 r1] eqn:E. inversion H; subst.
       destruct (arg_facts _ _ _ G1) as [_ [Hx _]]. destruct (arg_facts _ _ _ G2) as [_ [Hy _]].
-      eapply proj1. eapply add_equivalence_inv with (a := x) (b := y); eauto.
+      apply gc_inv. eapply proj1. eapply add_equivalence_inv with (a := x) (b := y); eauto.
     - (* AddEquivalence4 *) grd H G. apply andb_true_iff in G. destruct G as [G1 G2].
       destruct a as [x|]; [|ill H]. destruct b as [y|]; [|ill H].
       destruct (add_equivalence s x y) as [s1 r1] eqn:E. inversion H; subst.
       destruct (arg_facts _ _ _ G1) as [_ [Hx _]]. destruct (arg_facts _ _ _ G2) as [_ [Hy _]].
-      eapply proj1. eapply add_equivalence_inv with (a := x) (b := y); eauto.
+      apply gc_inv. eapply proj1. eapply add_equivalence_inv with (a := x) (b := y); eauto.
     - (* RemoveEquivalence *) grd H G.
       destruct a as [x|]; [|ill H]. destruct b as [y|]; [|ill H].
       destruct (remove_equivalence s x y) as [s1 r1] eqn:E. inversion H; subst.
-      eapply proj1. eapply remove_equivalence_inv with (a := x) (b := y); eauto.
-    - (* RemoveAllEquivalences *) grd H G. inversion H; subst. eapply proj1. eapply remove_all_equivalences_inv; eauto.
+      apply gc_inv. eapply proj1. eapply remove_equivalence_inv with (a := x) (b := y); eauto.
+    - (* RemoveAllEquivalences *) grd H G. inversion H; subst. apply gc_inv. eapply proj1. eapply remove_all_equivalences_inv; eauto.
     - (* SetUnits *) grd H G. inversion H; subst. apply gc_inv. apply (set_link_inv s v set_vunits); auto.
     - (* SetResetVariable *) grd H G. inversion H; subst. apply gc_inv. apply (set_link_inv s r0 set_rvar); auto.
     - (* SetResetTestVariable *) grd H G. inversion H; subst. apply gc_inv. apply (set_link_inv s r0 set_rtest); auto.
